@@ -388,7 +388,7 @@ fn main() {
     } else if args.len() >= 4 && args[1] == "one" {
         // sc_harness one <evaluator> <expr> [placeholder canon]  -- replay of a single call
         let e = &args[2];
-        let ph = call::default_placeholder(e);
+        let ph = args.get(4).and_then(|c| val::parse_canon(c)).unwrap_or_else(|| call::default_placeholder(e));
         let (o, t) = call::call(e, &args[3], &ph);
         println!("{} ticks={}", o.show(), t.total());
     } else {
